@@ -48,6 +48,7 @@ def xNoNone : XDecl → Bool
   | .mapStr _ => true
   | .tuplePos _ => true
   | .struct _ _ => true
+  | .structU _ _ => true
 
 /-- JSON types the deserializer of an extension declaration can possibly accept WITHOUT the model answering
     "not modelled" (`true` wherever the top-level shape does not decide) -/
@@ -66,6 +67,7 @@ def acceptsDocX : XDecl → DocKind → Bool
   | .mapStr _, k => k == .dict
   | .tuplePos _, k => k == .list
   | .struct _ _, k => k == .dict
+  | .structU _ _, k => k == .dict
 
 mutual
 def xFrag (XO : XOracles) : XDecl → PyVal → Bool
@@ -115,6 +117,7 @@ def xFrag (XO : XOracles) : XDecl → PyVal → Bool
             n == c.name && c.required.all (fun r => (lookup r attrs).isSome)
               && xCanonAttrs XO c fields attrs
           | _ => false)
+  | .structU _ _, _ => false      -- (_enable_undefined_value classes: modelled and corresponded, not in the proved fragment)
 termination_by structural x _ => x
 
 /-- `AnyOf[x₁, …, xₙ]` holding `v`: some option owns the value - its `_validate` passes and `v` lies in its
